@@ -216,7 +216,7 @@ func (oa *orderAnalysis) isErrorExit(l *ordLoop, e ordEffect) bool {
 	}
 	for _, b := range fn.Blocks {
 		if ret, ok := lastInstr(b).(*ssa.Return); ok && ret.Pos() == e.Pos {
-			last := ret.Results[len(ret.Results)-1]
+			last := retLast(ret)
 			return !isNilConst(last)
 		}
 	}
